@@ -285,5 +285,4 @@ def run(rep, tier, seed):
 
 
 def replay(r):
-    print(r.get("spec") or r)
-    return 0
+    return t3.replay_generic(r)
